@@ -2,6 +2,7 @@ package interp
 
 import (
 	"fmt"
+	"go/types"
 	"os"
 	"sort"
 	"strings"
@@ -207,6 +208,13 @@ func (b *bmcSys) check() {
 	}
 	for _, ar := range b.w.Arenas {
 		ar.Next = b.newState("arena."+ar.Name+".next", term.Int, f.IntC(0))
+		if b.job.Params["pool"] == 1 {
+			if _, isStruct := ar.T.Underlying().(*types.Struct); isStruct {
+				for i := range ar.Slots {
+					ar.Pooled = append(ar.Pooled, b.newState(fmt.Sprintf("arena.%s.pooled.%d", ar.Name, i), term.Bool, f.False()))
+				}
+			}
+		}
 	}
 	for _, o := range b.w.Objs {
 		b.symbolizeObject(m, o)
